@@ -34,14 +34,14 @@ Proof.
   intros rc H. destruct rc as [|d [|d' r]]; cbn in H; try discriminate. exists d. auto.
 Qed.
 
-Theorem required_sound_partial_ : forall cfg rc w k,
-  req_safe rc = true -> required cfg rc w = (false, k) ->
+Lemma required_gen_sound : forall fixed cfg rc w k,
+  (fixed = true \/ req_safe rc = true) -> required_gen fixed cfg rc w = (false, k) ->
   forall M e s0, valid_cfg M e -> (cfg = true -> snd s0 = true) ->
   rc_depth M e rc <= M ->
   sat (match w with Some c => after_write cfg M c | None => s0 end) (rc_need M e rc).
 Proof.
-  intros cfg rc w k Hsafe Hreq M e s0 [HM He] Hs0 Hval.
-  unfold required in Hreq.
+  intros fixed cfg rc w k Hsafe Hreq M e s0 [HM He] Hs0 Hval.
+  unfold required_gen in Hreq.
   destruct (cfg && single_annexed rc) eqn:E1.
   - apply andb_prop in E1. destruct E1 as [-> Hsa]. unfold rc_need. rewrite Hsa.
     destruct w as [c|]; unfold sat; cbn [fst snd after_write]; split; auto; try lia.
@@ -60,17 +60,36 @@ Proof.
       * set (clean := if hw_dirty_outer c then hw_lit c - 1 else hw_lit c) in *.
         destruct ((1 <? N.of_nat (length rc)) && existsb (fun d => clean <? hd_lit d) rc); [discriminate|].
         destruct rc as [|d [|d' r]]; try discriminate.
-        destruct ((match hd_var d with Some _ => true | None => false end) || hd_max d) eqn:E4; [discriminate|].
+        destruct ((match hd_var d with Some _ => true | None => false end) || hd_max d || (fixed && hd_maxm1 d)) eqn:E4;
+          [discriminate|].
         destruct (clean <? hd_lit d) eqn:E5; [discriminate|]. apply N.ltb_ge in E5.
+        apply orb_false_iff in E4. destruct E4 as [E4 E4f].
         apply orb_false_iff in E4. destruct E4 as [E4v E4m].
-        cbn [req_safe] in Hsafe. apply negb_true_iff in Hsafe.
+        assert (Hm1 : hd_maxm1 d = false).
+        { destruct Hsafe as [-> | Hsafe]; [exact E4f|].
+          cbn [req_safe] in Hsafe. apply negb_true_iff in Hsafe. exact Hsafe. }
         unfold rc_need, sat, after_write. rewrite Emax. cbn [single_annexed].
         destruct (hd_ann d) eqn:Eann; cbn [fst snd].
         -- split; [lia|]. intros _. apply orb_true_iff. right. apply N.leb_le. lia.
         -- split; [|discriminate].
-           unfold rc_depth. cbn [map eval_max fold_right]. unfold sd_of_hd. rewrite E4m, Hsafe.
+           unfold rc_depth. cbn [map eval_max fold_right]. unfold sd_of_hd. rewrite E4m, Hm1.
            destruct (hd_var d); [discriminate|]. cbn [eval_sd]. fold clean. lia.
 Qed.
+
+Theorem required_sound_partial_ : forall cfg rc w k,
+  req_safe rc = true -> required cfg rc w = (false, k) ->
+  forall M e s0, valid_cfg M e -> (cfg = true -> snd s0 = true) ->
+  rc_depth M e rc <= M ->
+  sat (match w with Some c => after_write cfg M c | None => s0 end) (rc_need M e rc).
+Proof. intros cfg rc w k Hs. apply required_gen_sound. right. exact Hs. Qed.
+
+(* with the repair of props/C22/fix.patch the statement holds at full strength *)
+Theorem required_sound_fixed_ : forall cfg rc w k,
+  required_gen true cfg rc w = (false, k) ->
+  forall M e s0, valid_cfg M e -> (cfg = true -> snd s0 = true) ->
+  rc_depth M e rc <= M ->
+  sat (match w with Some c => after_write cfg M c | None => s0 end) (rc_need M e rc).
+Proof. intros cfg rc w k. apply required_gen_sound. left. reflexivity. Qed.
 
 (* non-vacuity: a redundantly computing discontinuous writer (depth 2) and a reader of depth 2 *)
 Example required_sound_nonvacuous :
